@@ -303,7 +303,7 @@ func zzH_C10_build_root(t *zzT) { zzBuildRoot(t) }
 // comparison of two node hashes that differ only in values forks). Small bounds, thorough tier only.
 //
 //zz:opt loop=300 require=end,unchanged-subtree-then-touched sched=0 gor=3000 hashdepth=64 tier=thorough
-//zz:thorough P=3 T=2 K=1 TAG=0 budget=3600s
+//zz:thorough P=4 T=2 K=2 TAG=0 budget=3600s
 func zzH_C10_build_root_free(t *zzT) { zzBuildRoot(t) }
 
 func zzBuildRoot(t *zzT) {
